@@ -19,7 +19,9 @@
      RDbWrite   Operator._performTightCoupling: getInterface("database").writeDBEveryNode() after the coupled iterations --
                 also in the cycles that are exempt from coupling (cfg.skip, cyclesSkipTightCouplingInteraction): every node of
                 every cycle is written whatever the coupling settings are
-     Fail       the hook about to be called raises.  `with o: o.operate()` -> Operator.__exit__ -> interactAllError ->
+     Fail(kind) the hook about to be called raises -- an ordinary exception (RuntimeError, an application's own Exception
+                subclass) or something that is not an Exception (SystemExit from sys.exit(1), KeyboardInterrupt, another
+                BaseException subclass); the file left behind is the same for every kind.  `with o: o.operate()` -> Operator.__exit__ -> interactAllError ->
                 DatabaseInterface.interactError; the run is over (crash records where).  Database.close moves the file from the
                 fast path to the working directory, so the file is in the working directory iff it was closed.
 
@@ -32,6 +34,10 @@
                 DatabaseInterface.prepRestartRun: mergeHistory(reload file, startCycle, startNode) into the fresh database,
                 loadState(previous node) -- the reactor continues from the stored state -- and, when startNode = 0,
                 interactAllEOC for the previous cycle (each "f" interface changes the state once more).
+
+     probes     a restarted run asks Operator.loadState for every node of the history at the end-of-cycle and end-of-life
+                hooks of its first application interface: steps this run has written are answered from the live database
+                (the reload file holds the same steps with the earlier run's, different, state), later ones from the reload file.
 
    All single failures: Fail is enabled at every dispatch of a hook of an "f" interface (before and after the database
    interface in the stack, at BOL / BOC / EveryNode / Coupled / EOC / EOL of every cycle and node), once per run.
